@@ -138,6 +138,11 @@ def emit(catalog):
         nm = t.rs().replace('"', "'")
         out.append(f"  Box::new(Ops::<{t.rs()}> {{ name: \"{nm}\", desc: \"{d}\", flags: \"{flags(t)}\", default: {dflt}, _p: PhantomData }}),")
     out.append("] }")
+    out.append("pub fn defaults() -> Vec<Option<&'static str>> { vec![")
+    for t in catalog:
+        di = default_init(t)
+        out.append(f"  {'Some(' + chr(34) + di + chr(34) + ')' if di else 'None'},")
+    out.append("] }")
     return "\n".join(out) + "\n"
 
 if __name__ == "__main__":
